@@ -143,6 +143,8 @@ def do_amask(env, st, i):
         if res is not m:
             pairs += fail(i, 'apply_mask(in_place=True) returned a different object')
     else:
+        if res is m:
+            pairs += fail(i, 'apply_mask(in_place=False) returned its own argument instead of a new map')
         env.put(out, res)
     pairs += meta_check(i, 'apply_mask', describe(res), before)
     pairs.append(([[15], [h], [out], [hm], [mcode], [bits]], expect_ok(i, 'apply_mask')))
@@ -317,7 +319,10 @@ def do_mop(env, st, i):
         filler = frac(fillv)
     else:
         api, fcode, union, ff, fkind = MOPS[name]
-        res, err = run_api(i, name, lambda: api(maps))
+        passed = list(maps)
+        res, err = run_api(i, name, lambda: api(passed))
+        if len(passed) != len(maps) or any(a is not b for a, b in zip(passed, maps)):
+            return fail(i, '%s modified the list of maps passed by the caller' % name)
         filler = mop_filler(fkind, meta0)
     if err:
         if st.get('expect') == 'raise':
@@ -667,6 +672,8 @@ def tmpdir():
     global TMPROOT
     if TMPROOT is None or not os.path.isdir(TMPROOT):
         TMPROOT = tempfile.mkdtemp(prefix='hsverif_')
+        import atexit
+        atexit.register(cleanup)
     return TMPROOT
 
 
@@ -737,6 +744,8 @@ def do_wr(env, st, i):
     md = st.get('metadata')
     if md is not None:
         m.metadata = md
+    elif st.get('expect_metadata') is not None:
+        md = st['expect_metadata']      # assigned by earlier steps: the file must carry exactly these values
     _, err = run_api(i, 'write', lambda: m.write(fname, clobber=True, nocompress=not st.get('compress', True)))
     if err:
         return fail(i, err)
@@ -817,7 +826,10 @@ def do_vwrite(env, st, i):
     view = m.get_single(field, copy=False)
     fs = frac(view._sentinel)
     try:
-        view.update_values_pix(np.array(pixels, dtype=np.int64), vals)
+        if st.get('ring'):
+            view.update_values_pix(hpg.nest_to_ring(m.nside_sparse, np.array(pixels, dtype=np.int64)), vals, nest=False)
+        else:
+            view.update_values_pix(np.array(pixels, dtype=np.int64), vals)
         raised = None
     except Exception as e:  # noqa
         raised = '%s: %s' % (type(e).__name__, e)
@@ -1046,7 +1058,19 @@ def do_fracdet(env, st, i):
 
 @step('setmeta')
 def do_setmeta(env, st, i):
-    env.maps[st['h']].metadata = dict(st['metadata'])
+    m = env.maps[st['h']]
+    if st.get('bad'):
+        # an assignment that must be rejected (a key that is not upper case) leaves the metadata as it was
+        before = None if m.metadata is None else dict(m.metadata)
+        try:
+            m.metadata = dict(st['metadata'])
+        except ValueError:
+            after = None if m.metadata is None else dict(m.metadata)
+            if after != before:
+                return fail(i, 'a rejected metadata assignment changed the metadata of the map')
+            return []
+        return fail(i, 'a metadata dictionary with a key that is not upper case was accepted')
+    m.metadata = dict(st['metadata'])
     return []
 
 
@@ -1306,11 +1330,57 @@ def do_cat(env, st, i):
             overlap = True
         seen |= vp
     _, err = run_api(i, 'cat_healsparse_files', lambda: cat_healsparse_files(files, outfile, **kw))
+    checked = bool(st.get('check_overlap') or st.get('or_overlap'))
+    # or-ing applies to integer maps only (wide masks included); any other kind raises on overlap
+    ormode = bool(st.get('or_overlap')) and bool(maps[0].is_integer_map)
+    must_raise = overlap and checked and not ormode
+    if checked and not st.get('nomodel36'):
+        # the routine with the check (model op 36: L1 = CatChk.cat_chk, L0 = per-pixel fold + raise condition)
+        m0 = maps[0]
+        ncov2 = 12 * (nco if nco is not None else m0.nside_coverage) ** 2
+        nfine2 = (m0.nside_sparse // (nco if nco is not None else m0.nside_coverage)) ** 2
+        meta0 = env.meta[hs[0]]
+        if err:
+            if not must_raise:
+                return fail(i, err)
+
+            def cmp_raise(res):
+                out = []
+                if res[0][0] != 2:
+                    out.append(dict(step=i, what='cat: the implementation raised, the routine model (L1) did not', layer='L1',
+                                    impl='raised', model=res[0]))
+                if len(res) > 1 and res[1][0] != 1:
+                    out.append(dict(step=i, what='cat: the implementation raised although no two inputs share a valid pixel',
+                                    layer='L0', impl='raised', model=res[1]))
+                return out
+            return [([[36], [out], list(hs), ktoks(meta0), [ncov2, nfine2], [1, 1 if ormode else 0]], cmp_raise)]
+        if must_raise:
+            return fail(i, 'overlapping inputs were concatenated although check_overlap was requested')
+        res, err = run_api(i, 'read(cat output)', lambda: HealSparseMap.read(outfile))
+        if err:
+            return fail(i, err)
+        env.put(out, res)
+        nm = env.meta[out]
+        pairs = meta_check(i, 'concatenation', describe(res)[1:], describe(m0)[1:])
+        if nco is not None and res.nside_coverage != nco:
+            pairs += fail(i, 'concatenation output has nside_coverage %d, requested %d' % (res.nside_coverage, nco))
+
+        def cmp_ok(r):
+            o = []
+            if r[0][0] != 1:
+                o.append(dict(step=i, what='cat: the routine model (L1) raised, the implementation did not', layer='L1',
+                              impl='ok', model=r[0]))
+            if len(r) > 1 and r[1][0] != 0:
+                o.append(dict(step=i, what='cat: two inputs share a valid pixel and check_overlap did not raise',
+                              layer='L0', impl='ok', model=r[1]))
+            return o
+        pairs.append(([[36], [out], list(hs), ktoks(nm), [ncov2, nfine2], [1, 1 if ormode else 0]], cmp_ok))
+        return pairs
     if err:
-        if overlap and st.get('check_overlap') and not st.get('or_overlap'):
+        if must_raise:
             return []          # an error is required
         return fail(i, err)
-    if overlap and st.get('check_overlap') and not st.get('or_overlap'):
+    if must_raise:
         return fail(i, 'overlapping inputs were concatenated although check_overlap was requested')
     if overlap:
         return []              # without overlap checking the result on shared pixels is unspecified
@@ -1485,6 +1555,24 @@ def do_tohp(env, st, i):
             want = hpg.reorder(want, ring_to_nest=False)
         if got.dtype != np.dtype(wdt) or not np.array_equal(got, want):
             pairs += fail(i, 'generate_healpix_map(nest=%s) differs from the map (UNSEEN where invalid, integers as float64)' % nest)
+    if st.get('nside') and meta.kind == 'rec':
+        n2 = st['nside']
+        key = kw['key']
+        red = st.get('reduction', 'mean')
+        got, err = run_api(i, 'generate_healpix_map(nside=, key=)', lambda: m.generate_healpix_map(nside=n2, reduction=red, key=key))
+        ref, err2 = run_api(i, 'degrade+generate(key=)', lambda: m.degrade(n2, reduction=red).generate_healpix_map(key=key))
+        same_valid = sorted(int(p) for p in m.get_single(key, copy=True).valid_pixels) == sorted(int(p) for p in m.valid_pixels)
+        if not same_valid:
+            # a valid record whose stored field value equals that field's own sentinel is invalid in the field map
+            # (the exception clause of C14): the two routes legitimately differ there
+            pass
+        elif err or err2:
+            pairs += fail(i, 'generate_healpix_map(nside=%d, key=%s): %s' % (n2, key, err or err2))
+        elif not (np.array_equal(got, ref) or (red in ('mean', 'std', 'sum', 'wmean') and np.array_equal(got == hpg.UNSEEN, ref == hpg.UNSEEN)
+                                               and np.allclose(got, ref, rtol=1e-5, atol=1e-6))):
+            # mean/std/sum of a float32 field round differently in the two routes (the record route reduces in
+            # float64 and stores float32): a tolerance there, exact equality for every other reduction
+            pairs += fail(i, 'generate_healpix_map(nside=, key=) of a record map differs from degrade followed by export')
     # degraded export equals degrade then export
     if st.get('nside') and meta.kind == 'plain' and np.dtype(m.dtype) != np.bool_:
         n2 = st['nside']
@@ -1766,6 +1854,18 @@ def _geom_value(meta, m, value):
 
 @step('geom')
 def do_geom(env, st, i):
+    """st['thr'] (optional): PIXEL_RANGE_THRESHOLD during the call, so that operators and realize_geom go through
+    the pixel-range slice path also on small maps"""
+    old_thr = hsm_mod.PIXEL_RANGE_THRESHOLD
+    if st.get('thr') is not None:
+        hsm_mod.PIXEL_RANGE_THRESHOLD = st['thr']
+    try:
+        return _do_geom(env, st, i)
+    finally:
+        hsm_mod.PIXEL_RANGE_THRESHOLD = old_thr
+
+
+def _do_geom(env, st, i):
     from healsparse import geom as G
     mode = st['mode']
     pairs = []
@@ -1820,6 +1920,7 @@ def do_geom(env, st, i):
     ns = m.nside_sparse
     # oracle contract: the ranges a shape renders contain exactly the pixels it renders
     allpix = []
+    allrng = []
     for g, s in zip(gs, shapes):
         px = sorted(set(int(p) for p in g.get_pixels(nside=ns)))
         rr = g.get_pixel_ranges(nside=ns)
@@ -1833,6 +1934,7 @@ def do_geom(env, st, i):
             if kids != px:
                 pairs += fail(i, 'a shape with a render resolution does not cover exactly the children of its rendered pixels')
         allpix.append([int(p) for p in hpg.pixel_ranges_to_pixels(rr)] if len(rr) else [])
+        allrng.append([(int(a), int(b)) for a, b in np.asarray(rr).reshape((-1, 2))])
     opn = {'or': 'or', 'ior': 'or', 'and': 'and', 'iand': 'and', 'add': 'add', 'iadd': 'add', 'realize': 'or'}[mode]
     inplace = mode in ('ior', 'iand', 'iadd', 'realize')
     if mode == 'realize':
@@ -1849,7 +1951,27 @@ def do_geom(env, st, i):
         tgt = st['out']
         env.put(tgt, res)
         pairs.append(([[24], [h], [tgt]], expect_ok(i, 'geom-copy')))
-    for px in allpix:
-        if px:
+    use_thr = hsm_mod.PIXEL_RANGE_THRESHOLD
+    for k, (px, rows) in enumerate(zip(allpix, allrng)):
+        if not px:
+            continue
+        if len(px) > use_thr:
+            # the slice path of update_values_pix: the model's range update (op 23); the coverage the code
+            # reserves may be a superset of what the model needs, exactly as for explicit ranges (step 'rng')
+            flat = []
+            for a, b in rows:
+                flat += [a, b]
+            last = (k == len(allpix) - 1)
+            cm = [int(b) for b in res.coverage_mask] if last else None
+
+            def cmp(r, cm=cm):
+                if r[0][0] != 1:
+                    return [dict(step=i, what='geom: model rejected the range update', layer='L1', impl='ok', model=r[0])]
+                if cm is not None and any(n and not c for n, c in zip(r[1], cm)):
+                    return [dict(step=i, what='coverage mask after a shape update does not contain the needed coverage',
+                                 layer='L0', impl=cm, model=r[1])]
+                return []
+            pairs.append(([[23], [tgt], [tgt], [hsops.OPCODE[opn], 0], flat, toks], cmp))
+        else:
             pairs.append(([[2], [tgt], [hsops.OPCODE[opn], 0], px, toks * len(px)], expect_ok(i, 'geom-upd')))
     return pairs
